@@ -1,6 +1,7 @@
 package treeset
 
 import (
+	"github.com/emirpasic/gods/v2/containers"
 	rbt "github.com/emirpasic/gods/v2/trees/redblacktree"
 	vl "github.com/emirpasic/gods/v2/zzvlib"
 	v "github.com/emirpasic/gods/v2/zzvsup"
@@ -59,4 +60,20 @@ func VHSetStep() {
 	}
 	v.Assert(s.Empty() == (s.Size() == 0), "C15:empty")
 	v.Assert(s.Size() >= 0, "C15:size-nonneg")
+}
+
+// VGSmall builds a TreeSet by the library's own Add of n <= N arbitrary elements (duplicates possible).
+func VGSmall() *Set[int] {
+	n := v.Split(v.IntIn("n", 0, v.CfgOr("N", 3)), 0, 16)
+	s := NewWith[int](vl.Cmp)
+	for i := 0; i < n; i++ {
+		s.Add(v.Int("e"))
+	}
+	return s
+}
+
+func VHIter() {
+	s := VGSmall()
+	seq := s.Values()
+	containers.VIterStep(func() containers.IteratorWithIndex[int] { it := s.Iterator(); return &it }, seq, s)
 }
